@@ -422,6 +422,9 @@ fn gen_c03(seed: u64) -> Plan {
 /// Fork switches at arbitrary sync phases (below / at / above last-N).
 fn gen_c04(seed: u64) -> Plan {
     let mut b = base("C04", seed, 200, 3);
+    // in a third of the worlds a new branch takes up the transactions of the blocks it abandons
+    // (at other heights and indexes), as a real reorg does
+    b.plan.chain.recommit = mix(&[seed, 0xc04e]) % 3 == 0;
     if b.rng.chance(2, 3) {
         b.plan.knobs.last_n = pick(&mut b.rng, &[2u64, 3, 5, 10]);
     }
@@ -590,6 +593,7 @@ fn gen_c09(seed: u64) -> Plan {
 /// Short sync histories whose every storage write boundary is then crashed (see `vsim crash`).
 fn gen_c08(seed: u64) -> Plan {
     let mut b = base("C08", seed, 60, 2);
+    b.plan.chain.recommit = mix(&[seed, 0xc08e]) % 3 == 0;
     b.plan.trace_logging = false;
     if b.rng.chance(2, 3) {
         b.plan.knobs.check_point_interval = pick(&mut b.rng, &[4u64, 8]);
